@@ -68,6 +68,9 @@ struct VecRunner {
 		if constexpr (KIND != 2) {
 			if(o.name == "push") { T v = mk<T>(o.x); if constexpr (KIND == 0) c.push(v); else c.push_back(v); return 0; }
 			if(o.name == "push_alias") { Ev("AliasPush").i("d", d).emit(); if constexpr (KIND == 0) c.push(c[0]); else c.push_back(c[0]); return 0; }
+			if(o.name == "resize_alias") { Ev("AliasArg").str("op", "resize").emit(); c.resize(c.size() + 2, c[0]); return 0; }
+			if(o.name == "push_move_alias") { Ev("AliasArg").str("op", "push_rvalue").emit(); if constexpr (KIND == 0) c.push(std::move(c[0])); else c.push_back(std::move(c[0])); return 0; }
+			if(o.name == "emplace_alias") { Ev("AliasPush").i("d", d).emit(); c.emplace_back(c[0]); return 0; }
 			if(o.name == "push_move") { if constexpr (KIND == 0) c.push(mk<T>(o.x)); else c.push_back(mk<T>(o.x)); return 0; }
 			if(o.name == "emplace") { c.emplace_back((long long)o.x); return 0; }
 			if(o.name == "pop") { if constexpr (KIND == 0) { T v = c.pop(); res = value_of(v); } else { res = value_of(c.back()); c.pop_back(); } return res; }
@@ -224,8 +227,8 @@ static std::vector<Op> random_history(const std::string &kind, Rng &rng, long lo
 	std::vector<Op> h;
 	std::vector<long long> a[3];
 	std::vector<std::string> names;
-	if(kind == "vector") names = {"push", "push", "push_alias", "push_move", "emplace", "pop", "resize", "resize_val", "clear", "copy_construct", "move_construct", "copy_assign", "move_assign", "swap"};
-	else if(kind == "small_vector" || kind == "small_vector1") names = {"push", "push", "push_alias", "push_move", "emplace", "pop", "resize", "resize_val", "copy_construct", "move_construct", "swap"};
+	if(kind == "vector") names = {"push", "push", "push_alias", "emplace_alias", "push_move", "emplace", "pop", "resize", "resize_val", "clear", "copy_construct", "move_construct", "copy_assign", "move_assign", "swap"};
+	else if(kind == "small_vector" || kind == "small_vector1") names = {"push", "push", "push_alias", "emplace_alias", "push_move", "emplace", "pop", "resize", "resize_val", "copy_construct", "move_construct", "swap"};
 	else if(kind == "dyn_array") names = {"construct_n", "set", "set", "copy_construct", "move_construct", "copy_assign", "move_assign", "swap"};
 	else if(kind == "stack") names = {"push", "emplace", "pop"};
 	else if(kind == "list") names = {"emplace", "emplace", "pop_front"};
@@ -245,7 +248,7 @@ static std::vector<Op> random_history(const std::string &kind, Rng &rng, long lo
 			else { for(auto v : oq) q.push_back(v); oq.clear(); }
 		} else {
 			if(o.name == "push" || o.name == "push_move" || o.name == "emplace") { if((int)q.size() >= maxlen) continue; o.x = rng.below(5) + 1; q.push_back(o.x); }
-			else if(o.name == "push_alias") { if(q.empty() || (int)q.size() >= maxlen) continue; q.push_back(q[0]); }
+			else if(o.name == "push_alias" || o.name == "emplace_alias") { if(q.empty() || (int)q.size() >= maxlen) continue; q.push_back(q[0]); }
 			else if(o.name == "pop") { if(q.empty()) continue; q.pop_back(); }
 			else if(o.name == "pop_front") { if(q.empty()) continue; q.erase(q.begin()); }
 			else if(o.name == "resize" || o.name == "resize_val" || o.name == "construct_n") {
